@@ -175,6 +175,8 @@ def random_case(rng, tier):
         how = 'value' if rng.random() < 0.75 else 'exc'
         value = f'v{fut}' if rng.random() < 0.85 else '__uncopyable__'
         schedule.append({'act': 'complete', 'fut': fut, 'how': how, 'v': value, 'at': position})
+        if how == 'exc' and rng.random() < 0.4:
+            schedule[-1]['exc'] = rng.choice(sorted(programs.PROGRAM_ERRORS))  # e.g. a KeyError or an AttributeError
     for index in range(len(children)):
         if rng.random() < 0.25:
             schedule.append({'act': 'killchild', 'child': index, 'at': rng.randint(0, ticks + 2), 'msg': f'kill-c{index}'})
